@@ -27,6 +27,8 @@ def c_step(st):
         x = "LFollower %s (%d)" % (coq_N(rep(st["r"])), st["o"])
     elif k == "stale":
         x = "LFollower 0 (0)"   # a request from an earlier leader epoch is dropped: no step of the model
+    elif k == "regain":
+        x = "LRegain (%d) %d%%nat (%d)" % (st["keep"], st["foreign"], st["simhw"])
     elif k == "shrink":
         x = "LShrink %s" % coq_N(rep(st["r"]))
     else:
@@ -87,9 +89,9 @@ def run(pid, tier, seed, replay):
         nsteps += len(c["steps"])
         pols = set(m["policy"] for s in c["steps"] if s["op"] == "publish" for m in s["msgs"])
         if len(pols) >= 2 and (len(c["replicas"]) == 1 or "follower" in kinds):
-            canon.add(json.dumps([c["replicas"], c["minisr"], c["cc"], [[s["op"], s.get("r"), s.get("o"), [[m["policy"], m["large"], m["expected"]] for m in s.get("msgs", [])]] for s in c["steps"]]]))
+            canon.add(json.dumps([c["replicas"], c["minisr"], c["cc"], [[s["op"], s.get("r"), s.get("o"), s.get("keep"), s.get("foreign"), [[m["policy"], m["large"], m["expected"]] for m in s.get("msgs", [])]] for s in c["steps"]]]))
     return ctx.finish(
         coverage={"input_distribution": dist, "histories": len(cases), "steps": nsteps, "case_shards": len(jobs)},
         samples=[{"id": c["id"], "replicas": c["replicas"], "minisr": c["minisr"], "steps": c["steps"][:4]} for c in cases[:1]],
-        rule="per history a partition led by a real in-process server with 0-2 followers played by the driver (real replication requests), minimum ISR 1-3, replication factor 1-3, optional optimistic concurrency control, optional batching (groups of 2-5 messages reaching the loop as one batch): 8-23 steps of publishes with LEADER/ALL/NONE policy (some larger than the replication limit, some with right/wrong expected offsets), follower progress reports, ISR shrinks and expansions through the real metadata API; after every step newest offset, HW, ISR offsets and every ack received are compared with the model and checked by a direct oracle; non-trivial = at least two ack policies and (RF 1 or follower progress); distinct by configuration and step sequence",
+        rule="per history a partition led by a real in-process server with 0-2 followers played by the driver (real replication requests), minimum ISR 1-3, replication factor 1-3, optional optimistic concurrency control, optional batching (groups of 2-5 messages reaching the loop as one batch): 8-23 steps of publishes with LEADER/ALL/NONE policy (some larger than the replication limit, some with right/wrong expected offsets), follower progress reports, ISR shrinks and expansions through the real metadata API, and changes of leader term (a phantom in-sync replica is elected through Raft, holds the real server's log up to a chosen point at or above the HW plus 0-2 messages of its own, the real server follows it -- cuts back, fetches -- and is elected again; one corpus history per server where a report from the earlier term would otherwise count); after every step newest offset, HW, ISR offsets and every ack received are compared with the model and checked by a direct oracle; non-trivial = at least two ack policies and (RF 1 or follower progress); distinct by configuration and step sequence",
         evaluations=len(cases), distinct_nontrivial=len(canon), traces=len(cases))
